@@ -1,370 +1,676 @@
 """C31 - Content-Encoding round-trips and the codec cache is transparent.
 
+All three rules are decided by *interpreting* the repository functions from their AST (mitmlint/pyint.py) over small finite
+domains, never by matching their shape: locals may be renamed, tests split into temporaries, branches inverted, ``if`` turned
+into ``match``, helpers extracted (cache write, hit test, Content-Length tail), the entry type changed (namedtuple /
+NamedTuple class), logging / assertions / annotations added - the interpreted results stay the same.
+
 Decided:
-  R31.1 memo-key completeness and entry consistency of the shared one-entry cache in net/encoding.py, for both
-        ``decode`` and ``encode``: the coding is lower-cased once before it is used as table key / cache key; the
-        cache-hit predicate compares EVERY parameter that influences the result (input, lower-cased coding, errors)
-        with the matching field of the entry and returns the opposite field; the entry is written in namedtuple field
-        order with (input, coding, errors, result) where ``result`` was computed on that very path from exactly these
-        values by the codec of the right direction; nobody else writes ``_cache``.
-  R31.2 ``custom_decode`` and ``custom_encode`` have the same keys and every key maps to the decode_x / encode_x pair
-        of the same codec x (or ``identity`` on both sides).
-  R31.3 ``Message.set_content``: encodes with the coding read from the Content-Encoding header - the same header
-        ``get_content`` decodes with; an invalid coding removes the header and stores the body raw; unless
-        Transfer-Encoding is present, Content-Length := len(raw_content) after the last raw_content assignment.
-        ``get_content`` never returns a ``str`` codec result.  ``Message.decode`` reads the content, removes the header
-        and only then re-assigns the content; ``Message.encode`` sets the header before re-assigning the raw body.
-NOT decided: that the codecs themselves round-trip (zlib/brotli/zstd are libraries); that a cached entry produced by
-decode is byte-identical to what encode would produce (by design it is not).
-Dropped from DESIGN R31.1: the ``isinstance(x, bytes)`` conjunct and "only the five compressing codecs are cached" are
-NOT armed - removing either does not change any result (str inputs never equal a cached bytes body; entries of other
-codecs would be keyed completely as well), so they are not necessary conditions.
+  R31.1 cache transparency of ``encoding.decode`` / ``encoding.encode`` (bounded model check).  The compression codec
+        functions ``decode_<x>`` / ``encode_<x>`` are replaced by canonical injective stub pairs and ``codecs`` by a stub whose
+        results depend on (input, coding, errors); both functions are then interpreted from every cache state reachable by
+        short call histories over an alphabet of (direction, body, coding, errors) calls.  Every result - value or
+        exception - must equal the history-free reference: the table codec of the *lower-cased* coding applied to the
+        body, else ``codecs.<direction>(body, coding, errors)``, every failure except TypeError surfacing as ValueError.
+        This decides memo-key completeness (a hit predicate lacking a parameter that influences the result, or
+        returning / storing the wrong field, answers some call from a stale entry), lower-casing, table direction, "the
+        entry is written only from values computed on that path", and it follows helper functions by itself.
+        Plus: nobody outside decode / encode and the private helpers only they call writes the cache state.
+  R31.2 ``custom_decode`` / ``custom_encode`` (evaluated, not pattern-matched): same keys; for every key the decode
+        function undoes the encode function (stub pairs / interpreted pure functions such as ``identity``).
+  R31.3 ``Message.set_content / get_content / decode / encode`` interpreted on abstract messages (case-insensitive header
+        record) with the reference encode / decode: the stored raw body is the body encoded under the Content-Encoding
+        header (``identity`` if absent / empty), an invalid coding removes the header and stores the body raw, absent
+        Transfer-Encoding Content-Length == len(raw_content), reading the content back yields the assigned bytes;
+        ``get_content`` never returns a ``str`` codec result and falls back to the raw body only when not strict;
+        ``Message.decode`` leaves the decoded body without Content-Encoding; ``Message.encode`` stores the previous raw body
+        under the new coding (header removed + ValueError for an invalid one); decode followed by encode preserves the
+        content.
+NOT decided: that the codec libraries round-trip (zlib/brotli/zstd are trusted); that an entry produced by decode is
+byte-identical to what encode would produce for non-canonical compressors (by design it is not: the stub codecs are
+canonical).  Not armed (no result changes): the ``isinstance(x, bytes)`` conjunct, "only the five compressing codecs are
+cached", and the ``errors`` conjunct *as long as only table codecs (which ignore ``errors``) are cached* - the model check
+fires as soon as a cached coding's result depends on ``errors``.
 """
 
 from __future__ import annotations
 
 import ast
+import collections
+import re
 
-from ..model import attr_chain
-from ..model import last_attr
+from ..core import AnalysisError
+from ..pyint import NullLog
+from ..pyint import Raised
+from ..pyint import Rec
 from ..selftest import Mutant
-from ._helpers_E import dict_literal
+from ._helpers_E import CodecStub
+from ._helpers_E import GlobalsInterp
+from ._helpers_E import Warnings as _Warnings
+from ._helpers_E import canon
 from ._helpers_E import expect
+from ._helpers_E import header_of
+from ._helpers_E import message_rec
 from ._helpers_E import params
-from ._helpers_E import paths
-from ._helpers_E import show
 
 PROP = "C31"
 REG = {
     "strength": "partial",
-    "technique": "memo-key completeness (hit predicate vs. parameters vs. entry written, per path) + codec table symmetry + path ordering rules on Message",
-    "claim": "the shared codec cache is keyed by every parameter that influences the result and is filled only with results computed "
-    "from exactly the keyed values; encode/decode tables are symmetric; Message.set_content/get_content/decode/encode agree on the "
-    "Content-Encoding header, fall back to the raw body for invalid codings and keep Content-Length = len(raw_content).",
-    "note": "Codec libraries are trusted. Implicit exception edges: any call inside a try body may raise what the handlers catch.",
+    "technique": "bounded model check by AST interpretation: encoding.decode/encode with canonical stub codecs from every cache state reachable by short call histories "
+    "(result == history-free reference) + evaluated codec tables (decode undoes encode per key) + Message.set_content/get_content/decode/encode interpreted on abstract "
+    "messages against their post-conditions",
+    "claim": "no result of encoding.encode/decode depends on earlier calls (memo key complete, entries consistent, coding lower-cased, right table, failures -> ValueError) and "
+    "only decode/encode (and private helpers only they call) write the cache; the codec tables have the same keys and matching pairs; Message.set_content/get_content/"
+    "decode/encode agree on the Content-Encoding header, fall back to the raw body for invalid codings, keep Content-Length = len(raw_content) absent Transfer-Encoding, "
+    "and assigned content reads back unchanged.",
+    "note": "Codec libraries are trusted and replaced by canonical stub pairs; histories are bounded (depth 3, finite alphabet); nothing of /repo is imported or run.",
 }
 
 ENC = "mitmproxy/net/encoding.py"
 HTTP = "mitmproxy/http.py"
-CE = "content-encoding"
+CE, CL, TE = "content-encoding", "content-length", "transfer-encoding"
+_CODEC_FN = re.compile(r"(decode|encode)_\w+")
 
 
-def _conjuncts(e):
-    if isinstance(e, ast.BoolOp) and isinstance(e.op, ast.And):
-        out = []
-        for v in e.values:
-            out += _conjuncts(v)
-        return out
-    return [e]
+class _StubCodecs:
+    """Stand-in for the stdlib ``codecs`` module inside encoding.py: two known charset-like codings whose result depends on
+    (input, coding, errors) - so a cache entry keyed without one of them shows - and LookupError for anything else.
+    ``decode`` yields a ``str`` (a bytes->str codec, as utf8 is), ``encode`` yields bytes."""
+
+    KNOWN = ("utf8", "latin1")
+
+    @classmethod
+    def _norm(cls, coding):
+        if not isinstance(coding, str):
+            raise TypeError("coding must be str")
+        n = coding.lower().replace("-", "").replace("_", "")
+        if n not in cls.KNOWN:
+            raise LookupError(f"unknown encoding: {coding}")
+        return n
+
+    def decode(self, obj, encoding="utf-8", errors="strict"):
+        n = self._norm(encoding)
+        return f"decoded:{n}/{errors}[" + (obj.decode("latin-1") if isinstance(obj, bytes) else str(obj)) + "]"
+
+    def encode(self, obj, encoding="utf-8", errors="strict"):
+        n = self._norm(encoding)
+        return f"encoded:{n}/{errors}[".encode() + (obj if isinstance(obj, bytes) else str(obj).encode("latin-1")) + b"]"
 
 
-def _eq_sides(e):
-    if isinstance(e, ast.Compare) and len(e.ops) == 1 and isinstance(e.ops[0], ast.Eq):
-        return frozenset((ast.unparse(e.left), ast.unparse(e.comparators[0])))
-    return None
+class _Dataclasses:
+    """Stand-in for the stdlib ``dataclasses`` module (an entry type may be a frozen dataclass): ``replace`` on abstract records."""
+
+    _pyint_accepts_abstract = True
+
+    def replace(self, obj, **changes):
+        if not isinstance(obj, Rec):
+            raise TypeError("replace() should be called on dataclass instances")
+        attrs = {k: v for k, v in vars(obj).items() if not k.startswith("_")}
+        unknown = set(changes) - set(attrs)
+        if unknown:
+            raise TypeError(f"unexpected field {sorted(unknown)}")
+        attrs.update(changes)
+        return Rec(obj._cls, _bases=obj._bases, _impl=obj._impl, _name=obj._name, **attrs)
 
 
-def _local_def(fn, name):
-    src = [s.value for s in ast.walk(fn) if isinstance(s, ast.Assign) and any(isinstance(t, ast.Name) and t.id == name for t in s.targets)]
-    return src[0] if len(src) == 1 else None
+def _interp(ctx):
+    """Interpreter in which the compression codec functions of encoding.py are canonical stubs and ``codecs`` is the stub module."""
+    it = GlobalsInterp(ctx.model, trusted_modules={"codecs": _StubCodecs(), "collections": collections, "logging": NullLog(), "dataclasses": _Dataclasses(), "warnings": _Warnings()})
+    mod = ctx.model.module(ENC)
+    n = 0
+    for st in mod.tree.body:
+        if isinstance(st, ast.FunctionDef) and _CODEC_FN.fullmatch(st.name):
+            it.overrides[(ENC, st.name)] = CodecStub(st.name)
+            n += 1
+    ctx.require(n >= 2, f"{ENC}: no codec functions named decode_<x> / encode_<x> (naming idiom of the codec pairs not recognised)")
+    return it
 
 
-def _cache_side(ctx, direction):
-    """R31.1 for encoding.decode / encoding.encode."""
-    m = ctx.model
-    fn = ctx.func(ENC, direction)
-    ps = params(fn, drop_self=False)
-    ctx.require(len(ps) == 3, f"encoding.{direction}(input, encoding, errors) signature changed: {ps}")
-    inp, enc, err = ps
-    infield, outfield = ("encoded", "decoded") if direction == "decode" else ("decoded", "encoded")
-    nt = m.const(ENC, "CachedDecode")
-    ok = isinstance(nt, ast.Call) and last_attr(nt.func) == "namedtuple" and len(nt.args) == 2 and isinstance(nt.args[1], ast.Constant)
-    ctx.require(ok, "CachedDecode is no longer a namedtuple with a literal field string")
-    fields = nt.args[1].value.replace(",", " ").split()
-    ctx.require(sorted(fields) == ["decoded", "encoded", "encoding", "errors"], f"CachedDecode fields changed: {fields}")
-    good = True
+def _outcome(it, thunk):
+    it.steps = 0
+    try:
+        return ("ok", thunk())
+    except Raised as r:
+        return ("raise", r.name)
 
-    def fail(construct, reason, node=None):
-        nonlocal good
-        good = False
-        ctx.fail("R31.1", (ENC, direction, node or fn), f"{direction}: {construct}", reason)
 
-    # 1. lower-casing
-    lows = [s for s in fn.body if isinstance(s, ast.Assign) and isinstance(s.value, ast.Call) and isinstance(s.value.func, ast.Attribute)
-            and s.value.func.attr in ("lower", "casefold") and attr_chain(s.value.func.value) == enc and isinstance(s.targets[0], ast.Name)]
-    if len(lows) != 1:
-        fail("coding is not lower-cased", "mixed-case codings (e.g. GZip) miss the codec table and the cache key differs from the key written")
-        encv, low_line = enc, 0
+def _tables(ctx, it):
+    mod = ctx.model.module(ENC)
+    out = {}
+    for d in ("decode", "encode"):
+        ctx.model.const(ENC, f"custom_{d}")  # anchor
+        t = it.modconst(mod, f"custom_{d}", 0)
+        ctx.require(isinstance(t, dict) and t and all(isinstance(k, str) for k in t), f"custom_{d} does not evaluate to a non-empty mapping coding -> function")
+        out[d] = t
+    return out
+
+
+class _Reference:
+    """History-free meaning of encoding.decode / encoding.encode over the stub codecs."""
+
+    def __init__(self, it, tables):
+        self.it, self.tables, self.codecs = it, tables, _StubCodecs()
+
+    def __call__(self, direction, body, coding, errors="strict"):
+        if body is None:
+            return ("ok", None)
+        low = coding.lower()
+        f = self.tables[direction].get(low)
+        try:
+            if f is not None:
+                return ("ok", self.it.apply(f, [body], {}, 0))
+            return ("ok", getattr(self.codecs, direction)(body, low, errors))
+        except Raised as r:
+            return ("raise", "TypeError" if r.name == "TypeError" else "ValueError")
+        except TypeError:
+            return ("raise", "TypeError")
+        except Exception:
+            return ("raise", "ValueError")
+
+    def native(self, direction):
+        """the same as a callable usable as a stand-in for encoding.<direction> inside interpreted code"""
+
+        def f(body, coding, errors="strict"):
+            kind, v = self(direction, body, coding, errors)
+            if kind == "raise":
+                raise {"TypeError": TypeError, "ValueError": ValueError}[v]("reference codec failure")
+            return v
+
+        return f
+
+
+# ---------------------------------------------------------------------------------------------------
+# R31.1
+
+
+def _alphabet(ctx, it, ref, tables, state):
+    """Calls (direction, body, coding, errors).  The cacheable codings are *discovered* (which table codings change the state)."""
+    keys = sorted(set(tables["decode"]) | set(tables["encode"]))
+    a = b"A"
+    caching = []
+    for k in keys + ["utf8"]:
+        for d in ("encode", "decode"):
+            body = a if d == "encode" else (ref("encode", a, k)[1] if ref("encode", a, k)[0] == "ok" else a)
+            state.set({})
+            before = canon(state.get())
+            _outcome(it, lambda: it.call(ENC, d, body, k, "strict"))
+            if canon(state.get()) != before and k not in caching:
+                caching.append(k)
+    state.set({})
+    thorough = ctx.tier == "thorough"
+    fn_of = lambda k: repr(tables["encode"].get(k))
+    pick = []
+    for k in caching:  # two cached codings with different codecs (aliases such as deflate/deflateraw share results)
+        if len(pick) < 2 and fn_of(k) not in [fn_of(p) for p in pick]:
+            pick.append(k)
+    plain = [k for k in keys if k not in caching]
+    if thorough:
+        codings = keys + [k.upper() for k in pick] + ["utf8", "UTF-8", "latin-1", "x-unknown-coding"]
     else:
-        encv, low_line = lows[0].targets[0].id, lows[0].lineno
-        early = [n for n in ast.walk(fn) if isinstance(n, ast.Name) and n.id in (enc, encv) and isinstance(n.ctx, ast.Load) and n.lineno < low_line and n._parent is not lows[0].value.func]
-        if encv != enc:
-            early += [n for n in ast.walk(fn) if isinstance(n, ast.Name) and n.id == enc and isinstance(n.ctx, ast.Load) and n.lineno > low_line]
-        if early:
-            fail("coding used before/without lower-casing", "the codec table / cache are consulted with the raw header spelling", early[0])
+        codings = pick + [k.upper() for k in pick[:1]] + plain[:1] + ["utf8", "x-unknown-coding"]
+    codings = list(dict.fromkeys(codings))
+    bodies = [a, b"B\x00B"]
+    for k in pick if thorough else pick[:1]:
+        kind, v = ref("encode", a, k)
+        if kind == "ok" and isinstance(v, bytes):
+            bodies.append(v)  # valid input of the decoder, and what a cross-direction hit is about
+    errs = ["strict", "ignore"]
+    calls = [(d, b, c, e) for d in ("decode", "encode") for b in bodies for c in codings for e in errs]
+    calls += [("decode", None, codings[0], "strict"), ("encode", None, codings[0], "strict")]
+    return calls, caching
 
-    # 2. hit predicate
-    hits = []
-    for n in ast.walk(fn):
-        if isinstance(n, ast.If):
-            rets = [s for s in n.body if isinstance(s, ast.Return) and s.value is not None and attr_chain(s.value).startswith("_cache.")]
-            if rets:
-                hits.append((n, rets[0]))
-    ctx.require(len(hits) == 1, f"encoding.{direction}: {len(hits)} cache-hit branches (expected one 'if <hit>: return _cache.<field>')")
-    test, ret = hits[0][0].test, hits[0][1]
-    if isinstance(test, ast.Name):
-        d = _local_def(fn, test.id)
-        ctx.require(d is not None, f"encoding.{direction}: hit flag {test.id} is not a single local definition")
-        test = d
-    conj = _conjuncts(test)
-    ctx.require(not any(isinstance(c, ast.BoolOp) for c in conj), f"encoding.{direction}: hit predicate is not a conjunction: {ast.unparse(test)}")
-    eqs = {_eq_sides(c) for c in conj if _eq_sides(c)}
-    for fld, var, what in ((infield, inp, "the input body"), ("encoding", encv, "the coding"), ("errors", err, "the errors policy")):
-        ctx.cells += 1
-        if frozenset((f"_cache.{fld}", var)) not in eqs:
-            fail(f"hit predicate lacks _cache.{fld} == {var}", f"a cache hit does not compare {what}: the result depends on what was converted earlier")
-    if attr_chain(ret.value) != f"_cache.{outfield}":
-        fail(f"hit returns {attr_chain(ret.value)}", f"a cache hit must return the {outfield} field", ret)
 
-    # 3. entry written = (input, coding, errors, result) with result computed on this path from these values
-    table = f"custom_{direction}"
-    accepted = (f"{table}[{encv}]({inp})", f"codecs.{direction}({inp}, {encv}, {err})")
-    trs, eng = paths(fn, keep=lambda e: e[0] == "assign")
-    ctx.paths += len(trs)
-    n_writes = 0
-    for t, how in trs:
-        for i, e in enumerate(t):
-            if not (e[0] == "assign" and e[1] == "_cache"):
+def _show_call(c):
+    d, b, k, e = c
+    return f"{d}({b!r}, {k!r}, {e!r})"
+
+
+def _show_out(o):
+    return f"raises {o[1]}" if o[0] == "raise" else f"returns {o[1]!r}"
+
+
+def _coding_class(ref, c):
+    d, b, k, e = c
+    if b is None:
+        return "None body"
+    low = k.lower()
+    if low in ref.tables[d]:
+        return "table coding" if low == k else "mixed-case table coding"
+    return "codecs coding" if ref(d, b"x", k, e)[0] == "ok" else "unknown coding"
+
+
+class _State:
+    """The module state of encoding.py as the interpreted calls see it: globals re-bound through ``global`` declarations plus
+    module-level mutable containers (a dict / list used as cache), snapshot and restored in place."""
+
+    def __init__(self, ctx, it):
+        self.ctx, self.it, self.init, self.touched = ctx, it, {}, set()
+
+    def _mutables(self):
+        out = {}
+        for k, v in self.it._modconst.items():
+            if k[0] == ENC and isinstance(v, (dict, list, set)):
+                if k not in self.init:  # first sight: what the module-level expression evaluates to
+                    mod = self.ctx.model.module(ENC)
+                    self.init[k] = self.it.ev(mod.assigns(k[1])[-1], {}, mod, 0)
+                out[k] = v
+        return out
+
+    def get(self) -> dict:
+        st = dict(self.it.global_state())
+        for k, v in self._mutables().items():
+            if canon(v) != canon(self.init[k]):
+                st[("$mutable",) + k] = type(v)(v)
+                self.touched.add(k[1])
+        return st
+
+    def set(self, st: dict) -> None:
+        self.it.set_global_state({k: v for k, v in st.items() if k[0] != "$mutable"})
+        for k, v in self._mutables().items():
+            want = st.get(("$mutable",) + k, self.init[k])
+            if isinstance(v, list):
+                v[:] = want
+            else:
+                v.clear()
+                v.update(want)
+
+
+def _cache_model(ctx, it, ref, tables):
+    fns = {}
+    for d in ("decode", "encode"):
+        fn = fns[d] = ctx.func(ENC, d)
+        ctx.require(len(params(fn, drop_self=False)) >= 3 and not fn.args.kwonlyargs, f"encoding.{d}(body, coding, errors) signature changed: {params(fn, drop_self=False)}")
+        ctx.require(not fn.decorator_list, f"encoding.{d} is decorated: decorators are not interpreted")
+    state = _State(ctx, it)
+    calls, caching = _alphabet(ctx, it, ref, tables, state)
+    max_depth, max_states = 3, (600 if ctx.tier == "thorough" else 200)
+    seen = {canon({}): 0}
+    frontier = [({}, ())]
+    bad = {}
+    n_runs = 0
+    depth = 0
+    capped = False
+    while frontier and depth < max_depth:
+        depth += 1
+        nxt = []
+        for st, hist in frontier:
+            for c in calls:
+                state.set(st)
+                it.writes.clear()
+                d, b, k, e = c
+                got = _outcome(it, lambda: it.call(ENC, d, b, k, e))
+                n_runs += 1
+                if it.writes:
+                    raise AnalysisError(f"encoding.{d}: a cache entry is mutated in place ({it.writes[0][:3]}): state model does not cover it")
+                want = ref(d, b, k, e)
+                if got != want:
+                    kind = "history" if hist else "fresh"
+                    key = (d, kind, _coding_class(ref, c))
+                    bad.setdefault(key, (c, hist, got, want))
+                new = state.get()
+                cn = canon(new)
+                if cn not in seen:
+                    if len(seen) >= max_states:
+                        capped = True
+                        continue
+                    seen[cn] = depth
+                    nxt.append((new, hist + (c,)))
+        frontier = nxt
+    if frontier or capped:
+        ctx.bounds.append(f"R31.1: cache states beyond the first {max_states} / first reached by histories longer than {max_depth} calls are not explored")
+    state.set({})
+    ctx.cells += n_runs
+    ctx.bounds.append(f"R31.1: call alphabet {len(calls)} calls, histories up to {depth} calls, {len(seen)} cache states, {n_runs} interpreted calls")
+    for (d, kind, cls), (c, hist, got, want) in sorted(bad.items(), key=repr):
+        if kind == "history":
+            construct = f"{d}: the result for a {cls} depends on the call history"
+            reason = (f"{_show_call(c)} {_show_out(got)} after [{' ; '.join(_show_call(h) for h in hist)}] but must {_show_out(want).replace('returns', 'return').replace('raises', 'raise')} "
+                      "(stub codecs; the cache answers from an entry that does not belong to these arguments)")
+        else:
+            construct = f"{d}: wrong result for a {cls} on an empty cache"
+            reason = f"{_show_call(c)} {_show_out(got)} but the {d} codec of the lower-cased coding gives: {_show_out(want)} (stub codecs)"
+        ctx.fail("R31.1", (ENC, d, fns[d]), construct, reason, call=_show_call(c), history=[_show_call(h) for h in hist])
+    for d in ("decode", "encode"):
+        if not any(k[0] == d for k in bad):
+            ctx.ok("R31.1", f"encoding.{d}: {sum(1 for c in calls if c[0] == d)} calls x {len(seen)} reachable cache states all equal the history-free reference (cached codings: {caching})")
+    return state
+
+
+def _writers(ctx, it, model_state):
+    """Only decode / encode and private helpers reachable only from them write the module state of encoding.py."""
+    m = ctx.model
+    mod = m.module(ENC)
+    top = {st.name: st for st in mod.tree.body if isinstance(st, (ast.FunctionDef, ast.AsyncFunctionDef))}
+    funcs = [n for n in ast.walk(mod.tree) if isinstance(n, (ast.FunctionDef, ast.AsyncFunctionDef))]
+
+    def owner(n):
+        p = getattr(n, "_parent", None)
+        while p is not None and not isinstance(p, (ast.FunctionDef, ast.AsyncFunctionDef, ast.Lambda)):
+            p = getattr(p, "_parent", None)
+        return p
+
+    def own_nodes(fn):
+        return [n for n in ast.walk(fn) if n is not fn and owner(n) is fn]
+
+    state = {k[1] for k in it.gkeys if k[0] == ENC} | {k[1] for k, v in model_state.init.items() if canon(v) != canon(it._modconst.get(k, v)) or k[1] in model_state.touched}
+    for fn in funcs:
+        glob = {x for n in own_nodes(fn) if isinstance(n, ast.Global) for x in n.names}
+        state |= {n.id for n in own_nodes(fn) if isinstance(n, ast.Name) and isinstance(n.ctx, (ast.Store, ast.Del)) and n.id in glob}
+
+    def root(e):
+        while isinstance(e, (ast.Attribute, ast.Subscript)):
+            e = e.value
+        return e.id if isinstance(e, ast.Name) else None
+
+    writers = set()
+    for fn in funcs:
+        nodes = own_nodes(fn)
+        glob = {x for n in nodes if isinstance(n, ast.Global) for x in n.names}
+        local = {n.id for n in nodes if isinstance(n, ast.Name) and isinstance(n.ctx, (ast.Store, ast.Del))} - glob
+        local |= {a.arg for a in fn.args.posonlyargs + fn.args.args + fn.args.kwonlyargs}
+        for n in nodes:
+            if isinstance(n, ast.Name) and isinstance(n.ctx, (ast.Store, ast.Del)) and n.id in glob and n.id in state:
+                writers.add(fn.name)
+            elif isinstance(n, (ast.Attribute, ast.Subscript)) and isinstance(n.ctx, (ast.Store, ast.Del)) and root(n) in state and root(n) not in local:
+                writers.add(fn.name)
+    for st in mod.tree.body:  # module level: anything but plain (re-)initialisation
+        for n in ast.walk(st) if not isinstance(st, (ast.FunctionDef, ast.AsyncFunctionDef, ast.ClassDef)) else []:
+            if isinstance(n, (ast.Attribute, ast.Subscript)) and isinstance(n.ctx, (ast.Store, ast.Del)) and root(n) in state:
+                writers.add("<module>")
+    # call graph inside encoding.py from decode / encode
+    reach, todo = set(), ["decode", "encode"]
+    while todo:
+        f = todo.pop()
+        if f in reach or f not in top:
+            continue
+        reach.add(f)
+        for n in ast.walk(top[f]):
+            if isinstance(n, ast.Name) and isinstance(n.ctx, ast.Load) and n.id in top:
+                todo.append(n.id)
+    helpers = sorted((reach & writers) - {"decode", "encode"})
+    foreign = sorted(writers - reach)
+    leaks = []
+    for h in helpers:
+        for fn in funcs:
+            if fn.name not in reach and any(isinstance(n, ast.Name) and n.id == h for n in ast.walk(fn)):
+                leaks.append(f"{h} is used by {fn.name}")
+    ext = []
+    if state or helpers:  # other modules reaching for the cache state or its private writers
+        names = state | set(helpers)
+        dotted = ENC[:-3].replace("/", ".")
+        imp = re.compile(r"mitmproxy\.net\.encoding|from\s+mitmproxy\.net\s+import[^\n]*\bencoding\b|from\s+mitmproxy\.net\s+import\s*\([^)]*\bencoding\b|from\s+\.+\w*\s+import[^\n]*\bencoding\b")
+        for p in sorted((m.repo / "mitmproxy").rglob("*.py")):
+            rel = p.relative_to(m.repo).as_posix()
+            if rel == ENC or rel.startswith("mitmproxy/contrib/"):
                 continue
-            n_writes += 1
-            call = ast.parse(e[2], mode="eval").body
-            okc = isinstance(call, ast.Call) and last_attr(call.func) == "CachedDecode" and (len(call.args) == 4 or (not call.args and len(call.keywords) == 4))
-            ctx.require(okc, f"encoding.{direction}: cache write has an unmodelled shape: {e[2]}")
-            ent = {f: ast.unparse(a) for f, a in zip(fields, call.args)} if call.args else {k.arg: ast.unparse(k.value) for k in call.keywords}
-            res = ent.get(outfield)
-            want = {infield: inp, "encoding": encv, "errors": err}
-            wrong = {f: ent.get(f) for f, v in want.items() if ent.get(f) != v}
-            if wrong:
-                fail(f"cache entry {e[2]}", f"entry fields {wrong} are not the values the hit predicate compares (namedtuple order {fields})")
+            src = m.source(rel)
+            if "encoding" not in src or not any(n in src for n in names) or not imp.search(src):
                 continue
-            src = [j for j in range(i) if t[j][0] == "assign" and t[j][1] == res]
-            if not src or t[src[-1]][2] not in accepted:
-                fail(f"cache entry {e[2]}", f"the cached {outfield} value '{res}' was not computed on this path by {accepted[0]} / {accepted[1]}"
-                     + (f" but by {t[src[-1]][2]}" if src else " (not assigned before the write: conversion may have failed)"))
-                continue
-            between = [x for x in t[src[-1] + 1:i] if x[0] == "assign" and x[1] in (inp, encv, err, res)]
-            if between:
-                fail(f"cache entry {e[2]}", f"{between[0][1]} is reassigned between the conversion and the cache write")
-    # every conversion on the function's paths uses the right direction's codec with exactly (input, coding, errors)
-    rv = [s for s in ast.walk(fn) if isinstance(s, ast.Assign) and isinstance(s.value, ast.Call) and (
-        (isinstance(s.value.func, ast.Subscript) and attr_chain(s.value.func.value).startswith("custom_")) or attr_chain(s.value.func).startswith("codecs."))]
-    ctx.require(len(rv) == 2, f"encoding.{direction}: expected the table conversion and the codecs fallback, found {len(rv)}")
-    for s in rv:
-        ctx.cells += 1
-        if ast.unparse(s.value) not in accepted:
-            fail(f"conversion {ast.unparse(s.value)}", f"{direction} must convert with {accepted[0]} or {accepted[1]}", s)
-    ctx.require(good is False or n_writes >= 1, f"encoding.{direction}: no path writes the cache (shape not recognised)")
-    if good:
-        ctx.ok("R31.1", f"encoding.{direction}: key = ({inp}, {encv}.lower(), {err}) complete; entry = ({', '.join(fields)}) consistent on {n_writes} writing path(s)")
+            mo = m.module(rel)
+            aliases = {loc for loc, tgt in mo.imports.items() if tgt == dotted}
+            hit = any(tgt.startswith(dotted + ".") and tgt.rsplit(".", 1)[1] in names for tgt in mo.imports.values())
+            for n in ast.walk(mo.tree):
+                if isinstance(n, ast.Attribute) and n.attr in names:
+                    base = n.value
+                    chain = []
+                    while isinstance(base, ast.Attribute):
+                        chain.append(base.attr)
+                        base = base.value
+                    if isinstance(base, ast.Name):
+                        full = ".".join([base.id] + chain[::-1])
+                        if full in aliases or full == dotted:
+                            hit = True
+            if hit:
+                ext.append(rel)
+    ctx.check(not foreign and not leaks and not ext, "R31.1", (ENC, "<module>", 0), f"writers of the encoding cache state {sorted(state)}: {sorted(writers)} {leaks} {ext}".strip(),
+              "the cache is written (or its private writer is reachable) outside decode/encode: entries are not guaranteed to belong to the arguments they are keyed with",
+              desc=f"cache state {sorted(state)} written only by {sorted(writers)} (all reachable only from decode/encode)")
+
+
+# ---------------------------------------------------------------------------------------------------
+# R31.2
+
+
+def _table_pairs(ctx, it, tables):
+    dec, enc = tables["decode"], tables["encode"]
+    if set(dec) != set(enc):
+        ctx.fail("R31.2", (ENC, "<module>", 0), f"codec tables differ in keys: {sorted(set(dec) ^ set(enc))}",
+                 "a coding can be decoded but not re-encoded (or vice versa): set_content drops the header / get_content fails")
+    probes = [b"A", b"", b"\x00\xff(x)"]
+    for k in sorted(set(dec) & set(enc)):
+        ctx.cells += len(probes)
+        a, b = dec[k], enc[k]
+        name = lambda f: getattr(f, "fname", None) or getattr(getattr(f, "node", None), "name", repr(f))
+        problem = None
+        for p in probes:
+            e_ = _outcome(it, lambda: it.apply(b, [p], {}, 0))
+            if e_[0] != "ok":
+                problem = f"{name(b)}({p!r}) {_show_out(e_)}"
+                break
+            d_ = _outcome(it, lambda: it.apply(a, [e_[1]], {}, 0))
+            if d_ != ("ok", p):
+                problem = f"{name(a)}({name(b)}({p!r})) {_show_out(d_)} instead of returning {p!r}"
+                break
+        ctx.check(problem is None, "R31.2", (ENC, "<module>", 0), f"{k!r}: {name(a)} / {name(b)}", f"coding {k!r} is not decoded by the inverse of its encoder: {problem}",
+                  desc=f"{k!r}: {name(a)} undoes {name(b)}")
+
+
+# ---------------------------------------------------------------------------------------------------
+# R31.3
+
+
+def _message_rules(ctx, it, ref):
+    for q in ("set_content", "get_content", "decode", "encode"):
+        ctx.func(HTTP, f"Message.{q}")
+    # inside http.py the codec layer is the reference (R31.1 decides that encoding.encode/decode equal it)
+    it.overrides[(ENC, "encode")] = ref.native("encode")
+    it.overrides[(ENC, "decode")] = ref.native("decode")
+    valid = sorted(k for k in ref.tables["encode"] if ref("encode", b"x", k) != ("ok", b"x") and k in ref.tables["decode"])
+    ctx.require(valid, "no compressing coding in the codec tables")
+    z = valid[0]
+    ident = next((k for k in sorted(ref.tables["encode"]) if ref("encode", b"x", k) == ("ok", b"x")), None)
+    bogus = "x-unknown-coding"
+    str_coding = "utf8"  # bytes -> str under the stub codecs module, as in reality
+    ctx.require(isinstance(ref("decode", b"x", str_coding)[1], str), "stub codecs: no bytes->str coding")
+    bad = {}
+
+    def fail(fn, clause, reason):
+        bad.setdefault((fn, clause), reason)
+
+    def call(msg, meth, *a, **kw):
+        return _outcome(it, lambda: it.method(msg, meth, *a, **kw))
+
+    def hdrs(**kw):
+        return {k.replace("_", "-"): v for k, v in kw.items() if v is not None}
+
+    def desc(h, extra=""):
+        return "{" + ", ".join(f"{k}: {v!r}" for k, v in h.items()) + "}" + extra
+
+    n = 0
+    # ---- set_content (+ read back)
+    ces = [None, "", z, z.upper(), bogus] + ([ident] if ident else []) + (valid[1:2] if ctx.tier == "thorough" else [])
+    for value in (None, b"", b"body \x00 bytes"):
+        for ce in ces:
+            for te in (None, "chunked"):
+                for cl in (None, "999"):
+                    h = hdrs(content_encoding=ce, transfer_encoding=te, content_length=cl)
+                    msg = message_rec(h, b"previous")
+                    out = call(msg, "set_content", value)
+                    n += 1
+                    where = f"set_content({value!r}) with headers {desc(h)}"
+                    if out != ("ok", None):
+                        fail("set_content", "assignment fails", f"{where} {_show_out(out)}")
+                        continue
+                    raw = msg.data.content
+                    if value is None:
+                        if raw is not None:
+                            fail("set_content", "None does not clear the body", f"{where} leaves raw_content = {raw!r}")
+                        continue
+                    enc = ref("encode", value, ce or "identity")
+                    if enc[0] == "ok":
+                        if raw != enc[1]:
+                            fail("set_content", "raw body is not the content encoded under the Content-Encoding header",
+                                 f"{where} stores {raw!r}, but the header's coding ({ce or 'identity'!r}) encodes the value to {enc[1]!r}: get_content and independent decoders read another body")
+                        if ce and (header_of(msg, CE) or "").lower() != ce.lower():
+                            fail("set_content", "Content-Encoding changed although the coding is valid", f"{where} leaves Content-Encoding = {header_of(msg, CE)!r}")
+                    else:
+                        if header_of(msg, CE) is not None:
+                            fail("set_content", "invalid Content-Encoding kept", f"{where}: the invalid coding stays in the headers although the body cannot be encoded with it: reading the content back fails or differs")
+                        if raw != value:
+                            fail("set_content", "body not stored raw after a failed encode", f"{where} stores {raw!r} instead of the assigned value")
+                    if te is None and isinstance(raw, bytes) and header_of(msg, CL) != str(len(raw)):
+                        fail("set_content", "Content-Length != len(raw_content) without Transfer-Encoding",
+                             f"{where} leaves Content-Length = {header_of(msg, CL)!r} with a raw body of {len(raw)} bytes")
+                    back = call(msg, "get_content")
+                    if back != ("ok", value):
+                        fail("set_content", "assigned content does not read back", f"{where}; get_content() then {_show_out(back)}")
+    if not any(k[0] == "set_content" for k in bad):
+        ctx.ok("R31.3", f"set_content: raw = encode(value, Content-Encoding or identity); invalid coding -> header removed, raw body; Content-Length = len(raw) unless Transfer-Encoding; reads back ({n} messages)")
+
+    # ---- get_content
+    n0 = n
+    body = b"body"
+    zb = ref("encode", body, z)[1]
+    for raw in (None, b"", zb, b"garbage"):
+        for ce in (None, "", z, z.upper(), bogus, str_coding) + ((ident,) if ident else ()):
+            for strict in (True, False):
+                h = hdrs(content_encoding=ce)
+                msg = message_rec(h, raw)
+                out = call(msg, "get_content", strict) if strict is False else call(msg, "get_content")
+                n += 1
+                if raw is None:
+                    want = ("ok", None)
+                elif not ce:
+                    want = ("ok", raw)
+                else:
+                    r = ref("decode", raw, ce)
+                    if r[0] == "ok" and isinstance(r[1], bytes):
+                        want = r
+                    else:
+                        want = ("raise", "ValueError") if strict else ("ok", raw)
+                if out != want:
+                    what = "returns a str codec result" if out[0] == "ok" and isinstance(out[1], str) else "wrong result"
+                    fail("get_content", what, f"get_content(strict={strict}) with raw body {raw!r} and headers {desc(h)} {_show_out(out)}, expected: {_show_out(want)}"
+                         + (" (a bytes->str codec named in Content-Encoding, e.g. utf8, makes content a str)" if what.startswith("returns a str") else ""))
+                if msg.data.content != raw:
+                    fail("get_content", "reading modifies the raw body", f"get_content with raw body {raw!r} and headers {desc(h)} leaves raw_content = {msg.data.content!r}")
+    if not any(k[0] == "get_content" for k in bad):
+        ctx.ok("R31.3", f"get_content: decode(raw, Content-Encoding), str results rejected, raw fallback only when not strict ({n - n0} messages)")
+
+    # ---- Message.decode
+    n0 = n
+    for raw in (None, b"", zb, b"garbage"):
+        for ce in (None, z, bogus, str_coding):
+            for strict in (True, False):
+                h = hdrs(content_encoding=ce, content_length="999")
+                msg = message_rec(h, raw)
+                out = call(msg, "decode", strict)
+                n += 1
+                where = f"Message.decode(strict={strict}) with raw body {raw!r} and headers {desc(h)}"
+                if not raw:
+                    if out != ("ok", None) or msg.data.content != raw:
+                        fail("decode", "a missing / empty body is touched", f"{where} {_show_out(out)}; raw = {msg.data.content!r}")
+                    continue
+                if not ce:
+                    content = ("ok", raw)
+                else:
+                    r = ref("decode", raw, ce)
+                    content = r if r[0] == "ok" and isinstance(r[1], bytes) else (("raise", "ValueError") if strict else ("ok", raw))
+                if content[0] == "raise":
+                    if out != content:
+                        fail("decode", "invalid coding not reported", f"{where} {_show_out(out)}, expected: {_show_out(content)}")
+                    elif msg.data.content != raw:
+                        fail("decode", "failed decode modifies the body", f"{where} leaves raw = {msg.data.content!r}")
+                    continue
+                back = call(msg, "get_content")
+                if out != ("ok", None) or header_of(msg, CE) is not None or msg.data.content != content[1] or back != content:
+                    fail("decode", "decoded body is not stored without Content-Encoding",
+                         f"{where} {_show_out(out)}; afterwards raw = {msg.data.content!r}, Content-Encoding = {header_of(msg, CE)!r}, content {_show_out(back)}; expected the decoded body {content[1]!r} "
+                         "stored raw with the header removed (read the content, remove the header, then assign: otherwise the body is re-encoded or read raw)")
+                elif header_of(msg, CL) != str(len(content[1])):
+                    fail("decode", "Content-Length not updated", f"{where} leaves Content-Length = {header_of(msg, CL)!r}")
+    if not any(k[0] == "decode" for k in bad):
+        ctx.ok("R31.3", f"Message.decode: decoded body stored raw, Content-Encoding removed, Content-Length updated ({n - n0} messages)")
+
+    # ---- Message.encode
+    n0 = n
+    for raw in (b"body", b""):
+        for old in (None, z):
+            for new in [z, z.upper(), bogus] + ([ident] if ident else []) + valid[1:2]:
+                h = hdrs(content_encoding=old, content_length="999")
+                msg = message_rec(h, raw)
+                out = call(msg, "encode", new)
+                n += 1
+                where = f"Message.encode({new!r}) with raw body {raw!r} and headers {desc(h)}"
+                enc = ref("encode", raw, new)
+                if enc[0] == "raise":
+                    if out != ("raise", "ValueError") or header_of(msg, CE) is not None or msg.data.content != raw:
+                        fail("encode", "invalid coding not rejected", f"{where} {_show_out(out)}; afterwards raw = {msg.data.content!r}, Content-Encoding = {header_of(msg, CE)!r}; expected ValueError, header removed, body unchanged")
+                    continue
+                back = call(msg, "get_content")
+                if out != ("ok", None) or header_of(msg, CE) != new or msg.data.content != enc[1] or back != ("ok", raw):
+                    fail("encode", "body is not stored under the new coding",
+                         f"{where} {_show_out(out)}; afterwards raw = {msg.data.content!r}, Content-Encoding = {header_of(msg, CE)!r}, content {_show_out(back)}; expected raw = {enc[1]!r} "
+                         "(set the header before re-assigning the body: otherwise it is stored under the old coding)")
+                elif header_of(msg, CL) != str(len(enc[1])):
+                    fail("encode", "Content-Length not updated", f"{where} leaves Content-Length = {header_of(msg, CL)!r}")
+    if not any(k[0] == "encode" for k in bad):
+        ctx.ok("R31.3", f"Message.encode: header set, previous raw body stored under the new coding, invalid coding -> ValueError + header removed ({n - n0} messages)")
+
+    # ---- decode then encode preserves the content
+    n0 = n
+    ok = True
+    for new in valid[:2] + ([ident] if ident else []):
+        msg = message_rec(hdrs(content_encoding=z, content_length=str(len(zb))), zb)
+        o1 = call(msg, "decode")
+        o2 = call(msg, "encode", new)
+        back = call(msg, "get_content")
+        n += 1
+        if (o1, o2, back) != (("ok", None), ("ok", None), ("ok", body)) or msg.data.content != ref("encode", body, new)[1]:
+            ok = False
+            fail("decode", "decode followed by encode does not preserve the content", f"{z} message decoded and re-encoded as {new!r}: content {_show_out(back)}, raw = {msg.data.content!r}")
+    if ok:
+        ctx.ok("R31.3", f"Message.decode ; Message.encode(c) preserves the content ({n - n0} messages)")
+    ctx.cells += n
+    for (fn, clause), reason in sorted(bad.items()):
+        ctx.fail("R31.3", (HTTP, f"Message.{fn}", ctx.func(HTTP, f"Message.{fn}")), f"Message.{fn}: {clause}", reason)
+    it.overrides.pop((ENC, "encode"), None)
+    it.overrides.pop((ENC, "decode"), None)
 
 
 def check(ctx):
-    ctx.rule("R31.1", "codec cache: lower-cased coding, hit predicate compares input+coding+errors and returns the opposite field, entry written consistently after a successful conversion, no foreign writer")
-    ctx.rule("R31.2", "custom_decode / custom_encode: same keys, matching decode_x / encode_x pairs")
-    ctx.rule("R31.3", "Message.set_content/get_content/decode/encode: header agreement, invalid coding -> raw + header removed, Content-Length = len(raw_content), str results rejected, header updated before re-assignment")
-    m = ctx.model
-    ctx.trust("zlib / gzip / brotli / zstd codec round-trips")
+    ctx.rule("R31.1", "codec cache transparency: encoding.decode/encode interpreted with stub codecs from every cache state reachable by short call histories equal the history-free reference "
+             "(lower-cased coding, right table, complete memo key, consistent entry, failures -> ValueError); no foreign writer of the cache state")
+    ctx.rule("R31.2", "custom_decode / custom_encode: same keys, every decode function undoes the encode function of the same key")
+    ctx.rule("R31.3", "Message.set_content/get_content/decode/encode interpreted on abstract messages: header agreement, invalid coding -> raw + header removed, Content-Length = len(raw_content), "
+             "str results rejected, assigned content reads back, decode/encode re-store the body under the right coding")
+    ctx.trust("zlib / gzip / brotli / zstd codec round-trips (replaced by canonical stub pairs)")
+    ctx.trust("mitmlint.pyint interpretation of encoding.py / http.py Message methods")
+    it = _interp(ctx)
+    tables = _tables(ctx, it)
+    ref = _Reference(it, tables)
 
-    # ---- R31.1
-    for d in ("decode", "encode"):
-        _cache_side(ctx, d)
-    writers = []
-    for mod in [m.module(ENC)]:
-        for n in ast.walk(mod.tree):
-            if isinstance(n, (ast.Assign, ast.AugAssign, ast.AnnAssign)):
-                tg = n.targets if isinstance(n, ast.Assign) else [n.target]
-                if any(attr_chain(t) == "_cache" or attr_chain(t).startswith("_cache.") for t in tg):
-                    fn = n
-                    while fn is not None and not isinstance(fn, (ast.FunctionDef, ast.AsyncFunctionDef)):
-                        fn = getattr(fn, "_parent", None)
-                    writers.append(fn.name if fn is not None else "<module>")
-    foreign = sorted(set(writers) - {"decode", "encode", "<module>"})
-    ext = []
-    if ctx.tier == "thorough":
-        for mod in m.all_modules():
-            if mod.rel != ENC and "_cache" in mod.source and "encoding._cache" in mod.source.replace(" ", ""):
-                ext.append(mod.rel)
-    ctx.check(not foreign and not ext, "R31.1", (ENC, "<module>", 0), f"writers of encoding._cache: {sorted(set(writers))} {ext}",
-              "the cache is written outside decode/encode: entries are not guaranteed to be consistent", desc=f"_cache writers: {sorted(set(writers))}")
-
-    # ---- R31.2
-    dec = dict(((ast.literal_eval(k)), v) for k, v in dict_literal(m.const(ENC, "custom_decode"), "custom_decode"))
-    enc = dict(((ast.literal_eval(k)), v) for k, v in dict_literal(m.const(ENC, "custom_encode"), "custom_encode"))
-    if set(dec) != set(enc):
-        ctx.fail("R31.2", (ENC, "<module>", 0), f"codec tables differ in keys: {sorted(set(dec) ^ set(enc))}", "a coding can be decoded but not re-encoded (or vice versa): set_content drops the header / get_content fails")
-    for k in sorted(set(dec) & set(enc)):
-        ctx.cells += 1
-        a, b = dec[k], enc[k]
-        ctx.require(isinstance(a, ast.Name) and isinstance(b, ast.Name), f"codec table value for {k!r} is not a function name")
-        for nm in (a.id, b.id):
-            ctx.require(m.has(ENC, nm), f"codec function {nm} vanished")
-
-        def codec(nm, pre):
-            if nm == "identity":
-                return "identity"
-            if nm.startswith(pre + "_"):
-                return nm[len(pre) + 1:]
-            ctx.require(False, f"codec function name {nm} does not follow {pre}_<codec> (pairing idiom not recognised)")
-
-        ca, cb = codec(a.id, "decode"), codec(b.id, "encode")
-        ctx.check(ca == cb, "R31.2", (ENC, "<module>", a), f"{k!r}: {a.id} / {b.id}", f"coding {k!r} is decoded as {ca} but encoded as {cb}", desc=f"{k!r}: {a.id} <-> {b.id}")
-    five = set()
-    for d in ("decode", "encode"):
-        for n in ast.walk(ctx.func(ENC, d)):
-            if isinstance(n, ast.Compare) and isinstance(n.ops[0], ast.In) and isinstance(n.comparators[0], (ast.Tuple, ast.Set, ast.List)):
-                five |= set(ast.literal_eval(n.comparators[0]))
-    ctx.require(five and five <= set(dec), f"cached codings {sorted(five)} are not all codec-table keys")
-
-    # ---- R31.3 set_content
-    sc = ctx.func(HTTP, "Message.set_content")
-    val = params(sc)[0]
-
-    def header_read(fn, expr):
-        """Does ``expr`` (one local indirection, optional ``or 'identity'``) read the Content-Encoding header?"""
-        if isinstance(expr, ast.BoolOp) and isinstance(expr.op, ast.Or) and len(expr.values) == 2 and isinstance(expr.values[1], ast.Constant) and expr.values[1].value in ("identity", "none"):
-            expr = expr.values[0]
-        if isinstance(expr, ast.Name):
-            d = _local_def(fn, expr.id)
-            return d is not None and header_read(fn, d)
-        if isinstance(expr, ast.Call) and ast.unparse(expr.func) == "self.headers.get" and expr.args and isinstance(expr.args[0], ast.Constant):
-            return str(expr.args[0].value).lower() == CE
-        if isinstance(expr, ast.Subscript) and ast.unparse(expr.value) == "self.headers" and isinstance(expr.slice, ast.Constant):
-            return str(expr.slice.value).lower() == CE
-        return False
-
-    for fn_name, callee in (("Message.set_content", "encoding.encode"), ("Message.get_content", "encoding.decode")):
-        fn = ctx.func(HTTP, fn_name)
-        cs = [c for c in ast.walk(fn) if isinstance(c, ast.Call) and ast.unparse(c.func) == callee]
-        ctx.require(len(cs) == 1 and len(cs[0].args) >= 2, f"{fn_name}: expected one {callee}(body, coding) call")
-        ctx.check(header_read(fn, cs[0].args[1]), "R31.3", (HTTP, fn_name, cs[0]), f"{fn_name}: {ast.unparse(cs[0])}",
-                  "the coding is not the message's Content-Encoding header: set_content and get_content disagree about the coding of raw_content",
-                  desc=f"{fn_name}: coding = Content-Encoding header")
-
-    def removes_ce(e):
-        if e[0] == "del":
-            return e[1].replace('"', "'").lower() == f"self.headers['{CE}']"
-        return e[0] == "call" and e[1] == "self.headers.pop" and e[2] and e[2][0].strip("'\"").lower() == CE
-
-    trs, eng = paths(sc, keep=lambda e: e[0] in ("assign", "del") or (e[0] == "call" and e[1] in ("self.headers.pop", "encoding.encode")))
-    ctx.paths += len(trs)
-    bad = False
-    n_cl = n_inv = 0
-    for t, how in trs:
-        if how != "return":
-            continue
-        raws = [i for i, e in enumerate(t) if e[0] == "assign" and e[1] == "self.raw_content"]
-        if not raws or t[raws[-1]][2] == "None":
-            continue
-        probs = []
-        te = [e[2] for e in t if e[0] == "cond" and e[1].replace('"', "'").lower() in ("'transfer-encoding' in self.headers",)]
-        te_not = [not e[2] for e in t if e[0] == "cond" and e[1].replace('"', "'").lower() in ("'transfer-encoding' not in self.headers",)]
-        has_te = (te + te_not)[-1] if (te + te_not) else False
-        cl = [i for i, e in enumerate(t) if e[0] == "assign" and e[1].replace('"', "'").lower() == "self.headers['content-length']"]
-        if not has_te:
-            n_cl += 1
-            if not cl or cl[-1] < raws[-1] or t[cl[-1]][2] != "str(len(self.raw_content))":
-                probs.append("without Transfer-Encoding, Content-Length is not set to str(len(self.raw_content)) after the body was stored")
-        if any(e[0] == "except" for e in t):
-            n_inv += 1
-            x = next(i for i, e in enumerate(t) if e[0] == "except")
-            if not any(removes_ce(e) for e in t[x:]):
-                probs.append("an invalid Content-Encoding is kept although the body is stored raw: reading the content back fails or differs")
-            if t[raws[-1]][2] != val:
-                probs.append(f"after a failed encode the body stored is '{t[raws[-1]][2]}', not the assigned value")
-        else:
-            if not t[raws[-1]][2].startswith("encoding.encode(" + val):
-                probs.append(f"the body stored is '{t[raws[-1]][2]}', not the encoded value")
-        for p in probs:
-            bad = True
-            ctx.fail("R31.3", (HTTP, "Message.set_content", sc), f"set_content: path [{show([e for e in t if e[0] != 'call'], 9)}]", p)
-    ctx.require(bad or (n_cl >= 2 and n_inv >= 1), f"set_content: expected path classes not found (content-length paths={n_cl}, invalid-coding paths={n_inv})")
-    if not bad:
-        ctx.ok("R31.3", f"set_content: {len(trs)} paths; Content-Length follows raw_content unless Transfer-Encoding; invalid coding -> header removed, raw body")
-
-    # ---- R31.3 get_content rejects str
-    gc = ctx.func(HTTP, "Message.get_content")
-    trs, eng = paths(gc, keep=lambda e: e[0] in ("assign", "return"))
-    ctx.paths += len(trs)
-    bad = False
-    n_dec = 0
-    for t, how in trs:
-        if how != "return":
-            continue
-        ret = [e for e in t if e[0] == "return"][-1][1]
-        src = [e for e in t if e[0] == "assign" and e[1] == ret]
-        if not (src and src[-1][2].startswith("encoding.decode(")) and not ret.startswith("encoding.decode("):
-            continue
-        n_dec += 1
-        guards = [e for e in t if e[0] == "cond" and ((e[1] == f"isinstance({ret}, str)" and e[2] is False) or (e[1] == f"isinstance({ret}, bytes)" and e[2] is True))]
-        if not guards:
-            bad = True
-            ctx.fail("R31.3", (HTTP, "Message.get_content", gc), "get_content: returns the decode result unchecked",
-                     "a bytes->str codec named in Content-Encoding (e.g. utf8) makes content a str")
-    ctx.require(bad or n_dec >= 1, "get_content: no path returns the decoded body")
-    if not bad:
-        ctx.ok("R31.3", "get_content: decoded result is returned only if it is not a str")
-
-    # ---- R31.3 Message.decode / Message.encode ordering
-    md = ctx.func(HTTP, "Message.decode")
-    trs, eng = paths(md, keep=lambda e: e[0] in ("assign", "del") or (e[0] == "call" and e[1] in ("self.headers.pop", "self.get_content", "self.set_content")))
-    ctx.paths += len(trs)
-    bad = False
-    n = 0
-    for t, how in trs:
-        setc = [i for i, e in enumerate(t) if (e[0] == "assign" and e[1] == "self.content") or (e[0] == "call" and e[1] == "self.set_content")]
-        if how != "return" or not setc:
-            continue
-        n += 1
-        getc = [i for i, e in enumerate(t) if e[0] == "call" and e[1] == "self.get_content"]
-        rem = [i for i, e in enumerate(t) if removes_ce(e)]
-        if not (getc and rem and getc[0] < rem[0] < setc[0]):
-            bad = True
-            ctx.fail("R31.3", (HTTP, "Message.decode", md), f"decode: path [{show(t)}]",
-                     "decode must read the content, then remove Content-Encoding, then assign the content; otherwise the body is re-encoded or read raw")
-    ctx.require(bad or n >= 1, "Message.decode: no path re-assigns the content")
-    if not bad:
-        ctx.ok("R31.3", "Message.decode: get_content < remove header < content := decoded")
-
-    me = ctx.func(HTTP, "Message.encode")
-    ep = params(me)[0]
-    trs, eng = paths(me, keep=lambda e: e[0] == "assign")
-    ctx.paths += len(trs)
-    bad = False
-    n = 0
-    for t, how in trs:
-        setc = [i for i, e in enumerate(t) if e[0] == "assign" and e[1] == "self.content"]
-        if not setc:
-            continue
-        n += 1
-        hdr = [i for i, e in enumerate(t) if e[0] == "assign" and e[1].replace('"', "'").lower() == f"self.headers['{CE}']" and e[2] == ep]
-        if not (hdr and hdr[0] < setc[0] and t[setc[0]][2] == "self.raw_content"):
-            bad = True
-            ctx.fail("R31.3", (HTTP, "Message.encode", me), f"encode: path [{show(t)}]",
-                     "encode must set Content-Encoding before re-assigning content := raw_content; otherwise the body is stored under the old coding")
-    ctx.require(bad or n >= 1, "Message.encode: no path re-assigns the content")
-    if not bad:
-        ctx.ok("R31.3", "Message.encode: header set < content := raw_content")
+    state = _cache_model(ctx, it, ref, tables)
+    _writers(ctx, it, state)
+    _table_pairs(ctx, it, tables)
+    _message_rules(ctx, it, ref)
 
     expect(ctx, "R31.1", 3)
     expect(ctx, "R31.2", 7)
-    expect(ctx, "R31.3", 6)
+    expect(ctx, "R31.3", 5)
 
 
+_HIT_D = "        and _cache.encoded == encoded\n        and _cache.encoding == encoding\n        and _cache.errors == errors\n"
+_FIVE_D = "        if encoding in (\"gzip\", \"deflate\", \"deflateraw\", \"br\", \"zstd\"):\n            _cache = CachedDecode(encoded, encoding, errors, decoded)\n        return decoded\n"
 _LOW = "        return None\n    encoding = encoding.lower()\n\n    global _cache\n    cached = (\n        isinstance(encoded, bytes)"
 MUTANTS = [
-    Mutant("decode-key-without-errors", ENC, "        and _cache.encoded == encoded\n        and _cache.encoding == encoding\n        and _cache.errors == errors\n", "        and _cache.encoded == encoded\n        and _cache.encoding == encoding\n", "R31.1"),
+    Mutant("decode-key-without-coding", ENC, _HIT_D, "        and _cache.encoded == encoded\n        and _cache.errors == errors\n", "R31.1"),
     Mutant("encode-key-without-coding", ENC, "        and _cache.decoded == decoded\n        and _cache.encoding == encoding\n", "        and _cache.decoded == decoded\n", "R31.1"),
     Mutant("encode-key-without-body", ENC, "        isinstance(decoded, bytes)\n        and _cache.decoded == decoded\n", "        isinstance(decoded, bytes)\n", "R31.1"),
+    Mutant("decode-key-without-body", ENC, "        isinstance(encoded, bytes)\n        and _cache.encoded == encoded\n", "        isinstance(encoded, bytes)\n", "R31.1"),
+    # dropping the errors conjunct alone changes no result while only table codecs (which ignore errors) are cached; it does once charset codecs are cached too
+    Mutant("all-codings-cached-key-without-errors", ENC, _HIT_D + "    )\n    if cached:\n        return _cache.decoded\n    try:\n        try:\n            decoded = custom_decode[encoding](encoded)\n        except KeyError:\n            decoded = codecs.decode(encoded, encoding, errors)  # type: ignore\n" + _FIVE_D,
+           "        and _cache.encoded == encoded\n        and _cache.encoding == encoding\n    )\n    if cached:\n        return _cache.decoded\n    try:\n        try:\n            decoded = custom_decode[encoding](encoded)\n        except KeyError:\n            decoded = codecs.decode(encoded, encoding, errors)  # type: ignore\n        _cache = CachedDecode(encoded, encoding, errors, decoded)\n        return decoded\n", "R31.1"),
     Mutant("decode-hit-returns-input-field", ENC, "        return _cache.decoded\n", "        return _cache.encoded\n", "R31.1"),
     Mutant("encode-entry-fields-swapped", ENC, "            encoded = codecs.encode(decoded, encoding, errors)  # type: ignore\n        if encoding in (\"gzip\", \"deflate\", \"deflateraw\", \"br\", \"zstd\"):\n            _cache = CachedDecode(encoded, encoding, errors, decoded)",
            "            encoded = codecs.encode(decoded, encoding, errors)  # type: ignore\n        if encoding in (\"gzip\", \"deflate\", \"deflateraw\", \"br\", \"zstd\"):\n            _cache = CachedDecode(decoded, encoding, errors, encoded)", "R31.1"),
@@ -372,15 +678,21 @@ MUTANTS = [
     Mutant("decode-uses-encode-table", ENC, "decoded = custom_decode[encoding](encoded)", "decoded = custom_encode[encoding](encoded)", "R31.1"),
     Mutant("decode-caches-before-fallback", ENC, "        except KeyError:\n            decoded = codecs.decode(encoded, encoding, errors)  # type: ignore\n",
            "        except KeyError:\n            _cache = CachedDecode(encoded, encoding, errors, decoded)\n            decoded = codecs.decode(encoded, encoding, errors)  # type: ignore\n", "R31.1"),
+    Mutant("decode-caches-the-input-as-result", ENC, "            _cache = CachedDecode(encoded, encoding, errors, decoded)\n        return decoded\n", "            _cache = CachedDecode(encoded, encoding, errors, encoded)\n        return decoded\n", "R31.1"),
     Mutant("field-order-changed", ENC, "\"encoded encoding errors decoded\"", "\"decoded encoding errors encoded\"", "R31.1"),
+    Mutant("decode-global-declaration-dropped", ENC, "    encoding = encoding.lower()\n\n    global _cache\n    cached = (\n        isinstance(encoded, bytes)", "    encoding = encoding.lower()\n\n    cached = (\n        isinstance(encoded, bytes)", "R31.1"),
+    Mutant("decode-errors-leak-as-lookuperror", ENC, "        return decoded\n    except TypeError:\n        raise\n    except Exception as e:", "        return decoded\n    except (TypeError, LookupError):\n        raise\n    except Exception as e:", "R31.1"),
+    Mutant("public-cache-primer", ENC, "def identity(content):", "def prime(encoded, coding, decoded):\n    global _cache\n    _cache = CachedDecode(encoded, coding, \"strict\", decoded)\n\n\ndef identity(content):", "R31.1"),
     Mutant("br-encoded-as-zstd", ENC, "    \"br\": encode_brotli,\n", "    \"br\": encode_zstd,\n", "R31.2"),
     Mutant("zstd-not-encodable", ENC, "    \"zstd\": encode_zstd,\n", "", "R31.2"),
     Mutant("deflateraw-decoded-as-gzip", ENC, "    \"deflateraw\": decode_deflate,\n", "    \"deflateraw\": decode_gzip,\n", "R31.2"),
     Mutant("invalid-coding-header-kept", HTTP, "            del self.headers[\"content-encoding\"]\n            self.raw_content = value\n", "            self.raw_content = value\n", "R31.3"),
     Mutant("content-length-of-decoded-body", HTTP, "self.headers[\"content-length\"] = str(len(self.raw_content))", "self.headers[\"content-length\"] = str(len(value))", "R31.3"),
     Mutant("content-length-only-if-present", HTTP, "        else:\n            self.headers[\"content-length\"] = str(len(self.raw_content))", "        elif \"content-length\" in self.headers:\n            self.headers[\"content-length\"] = str(len(self.raw_content))", "R31.3"),
+    Mutant("content-length-not-after-invalid-coding", HTTP, "            del self.headers[\"content-encoding\"]\n            self.raw_content = value\n", "            del self.headers[\"content-encoding\"]\n            self.raw_content = value\n            return\n", "R31.3"),
     Mutant("set-content-ignores-header", HTTP, "self.raw_content = encoding.encode(value, ce or \"identity\")", "self.raw_content = encoding.encode(value, \"identity\")", "R31.3"),
     Mutant("str-result-accepted", HTTP, "                if isinstance(content, str):\n                    raise ValueError(f\"Invalid Content-Encoding: {ce}\")\n", "", "R31.3"),
+    Mutant("get-content-always-lenient", HTTP, "            except ValueError:\n                if strict:\n                    raise\n                return self.raw_content\n", "            except ValueError:\n                return self.raw_content\n", "R31.3"),
     Mutant("decode-assigns-before-popping", HTTP, "        self.headers.pop(\"content-encoding\", None)\n        self.content = decoded\n", "        self.content = decoded\n        self.headers.pop(\"content-encoding\", None)\n", "R31.3"),
     Mutant("encode-assigns-before-header", HTTP, "        self.headers[\"content-encoding\"] = encoding\n        self.content = self.raw_content\n", "        self.content = self.raw_content\n        self.headers[\"content-encoding\"] = encoding\n", "R31.3"),
 ]
